@@ -45,10 +45,9 @@ for name in $names; do
     echo "skip  $name (does not build / vet, or nothing renamed)"; rm -rf $d; continue
   fi
   kept=$((kept+1))
-  bad=""
-  for p in $($BIN list); do
-    out=$(XZVERIFY_REPO=$d XZVERIFY_HOME=$d/.xzv $BIN check $p --tier quick 2>&1) || bad="$bad $p[$(echo "$out" | grep -m1 '^FAIL\|^UNDEC' | cut -c1-90)]"
-  done
+  bad=$( for p in $($BIN list); do
+    ( out=$(XZVERIFY_REPO=$d XZVERIFY_HOME=$d/.xzv-$p $BIN check $p --tier quick 2>&1) || echo -n " $p[$(echo "$out" | grep -m1 '^FAIL\|^UNDEC' | cut -c1-90)]" ) &
+  done; wait )
   if [ -n "$bad" ]; then alarms=$((alarms+1)); echo "ALARM $name:$bad"; else echo "quiet $name"; fi
   rm -rf $d
 done
